@@ -7,12 +7,14 @@ package sxg
 import (
 	"bytes"
 	"crypto/sha256"
+	"encoding/base64"
 	"errors"
 	"fmt"
 	"io"
 	"log"
 	"net/http"
 	"net/url"
+	"regexp"
 	"strings"
 	"testing"
 	"time"
@@ -31,6 +33,8 @@ import (
 func TestMain(m *testing.M) { core.Main(m) }
 
 var quiet = log.New(io.Discard, "", 0)
+
+var certShaRe = regexp.MustCompile(`cert-sha256=\*([A-Za-z0-9+/=]*)\*`)
 
 // ---- certificate server ---------------------------------------------------------
 
@@ -455,9 +459,9 @@ func min(a, b int) int {
 // ---- C01: tamper / clock ----------------------------------------------------------------
 
 type world struct {
-	c     *core.Ctx
-	pubs  []*gen.LSXG
-	net   *certNet
+	c    *core.Ctx
+	pubs []*gen.LSXG
+	net  *certNet
 }
 
 func publish(c *core.Ctx, n int) *world {
@@ -859,16 +863,13 @@ func judgeAccept(c *core.Ctx, w *world, e *signedexchange.Exchange, payload []by
 	}
 	// spec step 6: some listed signature's cert-sha256 parameter is the hash of the fetched leaf
 	servedHash := sha256.Sum256(leafOf(w.net.served))
+	// (looked up textually: every `cert-sha256=*base64*` occurrence in the header is
+	// decoded the way the header grammar prescribes; no assumption about the rest
+	// of the header's shape, which may be damaged yet still valid)
 	bound := false
-	for _, item := range strings.Split(e.SignatureHeaderValue, ", ") {
-		_, ps, err := refsxg.ParseSignature(item)
-		if err != nil {
-			continue
-		}
-		for _, p := range ps {
-			if b, ok := refsxg.BytesOf(p.Raw); ok && p.Key == "cert-sha256" && bytes.Equal(b, servedHash[:]) {
-				bound = true
-			}
+	for _, m := range certShaRe.FindAllStringSubmatch(e.SignatureHeaderValue, -1) {
+		if b, err := base64.StdEncoding.DecodeString(m[1]); err == nil && bytes.Equal(b, servedHash[:]) {
+			bound = true
 		}
 	}
 	if !bound {
@@ -980,6 +981,52 @@ func TestExhaustiveTamper(t *testing.T) {
 			core.ExhaustiveDone("C01: every single-bit flip, truncation length and single-byte deletion of one serialized exchange", 1)
 			c.Outcome("done")
 			c.Sig("%s/len%d", l.Version, len(l.File))
+		})
+	})
+}
+
+// TestSigHeaderFaults: the Signature header value (a structured header, parsed
+// by the verifier before anything is trusted) is damaged on its own: bit flips,
+// truncation, duplicated and swapped blocks, inserted and deleted bytes, at
+// drawn positions of the header string. The parser must be total (C10) and an
+// acceptance must still be an acceptance of signed content (C01).
+func TestSigHeaderFaults(t *testing.T) {
+	rapid.Check(t, func(t *rapid.T) {
+		core.Run(t, "sxg/sigheader-faults", func(c *core.Ctx) {
+			w := publish(c, 1)
+			l := w.pubs[0]
+			e, err := signedexchange.ReadExchange(bytes.NewReader(l.File))
+			if err != nil {
+				return
+			}
+			h := []byte(e.SignatureHeaderValue)
+			n := c.Int("nfaults", 1, 3)
+			for i := 0; i < n; i++ {
+				if c.Chance("structural", 1, 3) {
+					// structure-aware: characters that matter to the grammar
+					at := c.Int("at", 0, len(h))
+					ins := c.PickStr("ins", ";", ",", "=", "\"", "*", " ", "\\", ", label", ";a", "=1", "=*", "\"\"", ";sig=*AA==*", "\t", "9999999999999999999999")
+					h = append(h[:at:at], append([]byte(ins), h[at:]...)...)
+					c.Fault("sigheader-structural-insert")
+				} else {
+					h = c.CorruptBlob("blob", h, nil)
+				}
+			}
+			e.SignatureHeaderValue = string(h)
+			tm := clientTime(c, l)
+			v := verify(c, e, tm, w.net)
+			if c.Oracle("C10", "C01") {
+				c.CheckTotal("Exchange.Verify", len(l.File), v.pi, v.alloc)
+			}
+			if v.ok && c.Oracle("C01") {
+				judgeAccept(c, w, e, v.payload, tm, "damaged Signature header")
+			}
+			if v.ok {
+				c.Outcome("accepted")
+			} else {
+				c.Outcome("rejected")
+			}
+			c.Sig("%s/n%d", l.Version, n)
 		})
 	})
 }
